@@ -35,6 +35,7 @@ func extraCmd3(name string, args []string) bool {
 	dumpIR := fs.String("dump-ir", "", "write the module text here")
 	abi := fs.Int("abi", 0, "llgo ABI mode")
 	debug := fs.Bool("debug", false, "")
+	fpRange := fs.Bool("assume-fp-range", false, "float->int conversions: assume the value is representable in the result type")
 	fs.Parse(args)
 
 	t0 := time.Now()
@@ -80,12 +81,14 @@ func extraCmd3(name string, args []string) bool {
 	var results []HarnessResult
 	for _, fn := range fns {
 		solver := smt.NewSolver(*timeout)
+		solver.AbsDiv = true
 		m := core.NewMachine(solver)
 		m.Debug = *debug
 		m.Deadline = time.Now().Add(time.Duration(*deadline) * time.Second)
 		d := tv.New(m, prog, rtp, []*llfe.Module{mod}, *pkgpath)
 		d.Prefix = *prefix
 		d.SliceN = *sliceN
+		d.AssumeFPRange = *fpRange
 		d.G.Cfg.Unwind, d.L.Cfg.Unwind = *unwind, *unwind
 		if d.RT != nil {
 			d.RT.Cfg.Unwind = *unwind + 8
